@@ -66,6 +66,16 @@ find_unusual_characters = re.compile(
     r'|(?<=\w)\xBF'  # INVERTED QUESTION MARK but only directly after a letter
 ).findall
 
+def parse_address(s):
+    '''
+    like email.utils.parseaddr, but also for deeply nested comments
+    ("((((…"), which exhaust the recursive parser of the standard library
+    '''
+    try:
+        return email.utils.parseaddr(s)
+    except RecursionError:
+        return ('', '')
+
 header_fields_with_dedicated_checks = set()
 
 def checks_header_fields(*fields):
@@ -655,7 +665,7 @@ class Checker(metaclass=abc.ABCMeta):
         if len(report_msgid_bugs_tos) == 0:
             self.tag('no-report-msgid-bugs-to-header-field')
         for report_msgid_bugs_to in report_msgid_bugs_tos:
-            real_name, email_address = email.utils.parseaddr(report_msgid_bugs_to)
+            real_name, email_address = parse_address(report_msgid_bugs_to)
             del real_name
             if '@' not in email_address:
                 try:
@@ -683,7 +693,7 @@ class Checker(metaclass=abc.ABCMeta):
             self.tag('no-last-translator-header-field')
         translator_emails = {}
         for translator in translators:
-            translator_name, translator_email = email.utils.parseaddr(translator)
+            translator_name, translator_email = parse_address(translator)
             del translator_name
             translator_emails[translator_email] = translator
             if '@' not in translator_email:
@@ -703,7 +713,7 @@ class Checker(metaclass=abc.ABCMeta):
         elif len(teams) == 0:
             self.tag('no-language-team-header-field')
         for team in teams:
-            team_name, team_email = email.utils.parseaddr(team)
+            team_name, team_email = parse_address(team)
             del team_name
             if '@' not in team_email:
                 # TODO: A URL is also allowed here.
